@@ -238,35 +238,46 @@ func c15PinRespect(p *Prog) *RuleResult {
 	// AssignNamesByFrequency: reserved names and keywords consulted in name-generation loops
 	if fn := p.FindFunc("renamer.(*MinifyRenamer).AssignNamesByFrequency"); r.Anchor("renamer.(*MinifyRenamer).AssignNamesByFrequency", fn != nil) {
 		reserved, keywords, store := false, false, false
-		eachInstr(fn, func(b *ssa.BasicBlock, in ssa.Instruction) {
-			switch x := in.(type) {
-			case *ssa.Lookup:
-				feedsIf := false
-				if x.Referrers() != nil {
-					for _, rf := range *x.Referrers() {
-						if bo, ok := rf.(*ssa.BinOp); ok && bo.Referrers() != nil {
-							for _, rr := range *bo.Referrers() {
-								if _, ok := rr.(*ssa.If); ok {
-									feedsIf = true
+		// the function itself and the helpers of the package it calls (the selection loop may be split off)
+		hosts := []*ssa.Function{fn}
+		eachInstr(fn, func(_ *ssa.BasicBlock, in ssa.Instruction) {
+			if c, ok := in.(*ssa.Call); ok {
+				if callee := c.Call.StaticCallee(); callee != nil && callee != fn && pkgPathOf(callee) == pkgPathOf(fn) && len(callee.Blocks) > 0 {
+					hosts = append(hosts, callee)
+				}
+			}
+		})
+		for _, host := range hosts {
+			eachInstr(host, func(b *ssa.BasicBlock, in ssa.Instruction) {
+				switch x := in.(type) {
+				case *ssa.Lookup:
+					feedsIf := false
+					if x.Referrers() != nil {
+						for _, rf := range *x.Referrers() {
+							if bo, ok := rf.(*ssa.BinOp); ok && bo.Referrers() != nil {
+								for _, rr := range *bo.Referrers() {
+									if _, ok := rr.(*ssa.If); ok {
+										feedsIf = true
+									}
 								}
 							}
 						}
 					}
-				}
-				if _, n, ok := loadedField(x.X); ok && n == "reservedNames" && feedsIf && definedInLoop(x) {
-					reserved = true
-				}
-				if u, ok := x.X.(*ssa.UnOp); ok {
-					if g, ok := u.X.(*ssa.Global); ok && g.Name() == "Keywords" && feedsIf && definedInLoop(x) {
-						keywords = true
+					if _, n, ok := loadedField(x.X); ok && n == "reservedNames" && feedsIf && definedInLoop(x) {
+						reserved = true
+					}
+					if u, ok := x.X.(*ssa.UnOp); ok {
+						if g, ok := u.X.(*ssa.Global); ok && g.Name() == "Keywords" && feedsIf && definedInLoop(x) {
+							keywords = true
+						}
+					}
+				case *ssa.Store:
+					if fa, ok := x.Addr.(*ssa.FieldAddr); ok && fieldAddrName(fa) == "name" && namedTypeName(fa.X.Type()) == "renamer.symbolSlot" {
+						store = true
 					}
 				}
-			case *ssa.Store:
-				if fa, ok := x.Addr.(*ssa.FieldAddr); ok && fieldAddrName(fa) == "name" && namedTypeName(fa.X.Type()) == "renamer.symbolSlot" {
-					store = true
-				}
-			}
-		})
+			})
+		}
 		r.Instances += 2
 		if reserved && store {
 			r.OK("AssignNamesByFrequency skips reserved names", true, "a loop regenerates the name while r.reservedNames[name] != 0 before slot.name is stored")
